@@ -356,10 +356,11 @@ class Formatter:
 
     def _not(self, value, prec):
         op_prec = precedence["not"]
+        sql = f"NOT {self.dispatch(value, op_prec)}"
         if prec >= op_prec:
-            return f"NOT {self.dispatch(value)}"
+            return sql
         else:
-            return f"NOT ({self.dispatch(value)})"
+            return f"({sql})"
 
     def _exists(self, value, prec):
         sql = self.dispatch(value, precedence["exists"])
